@@ -76,7 +76,8 @@ def probe_unit(uname, tag=""):
     punit.gen_path = os.path.join(BUILD, crate + ".rs")
     with open(punit.gen_path, "w") as f:
         f.write(punit.text())
-    res = verus.run_verus(punit.gen_path, ["--multiple-errors", "2000", "--rlimit", str(punit.rlimit)], timeout=3000)
+    # every further error of a function costs another solver query with less slack: three times the unit's rlimit
+    res = verus.run_verus(punit.gen_path, ["--multiple-errors", "2000", "--rlimit", str(3 * punit.rlimit)], timeout=3000)
     vs = verus.summarize(res)
     out["cmd"] = res["cmd"]
     if vs["tool_error"]:
@@ -308,6 +309,8 @@ def cmd_unit(args):
     for fq, msgs in (u.get("hints_lost") or {}).items():
         for m in msgs:
             print("HINT-LOST %s: %s" % (fq, m))
+    for fq, msg in (u.get("extract_failed") or {}).items():
+        print("EXTRACT-FAILED %s: %s" % (fq, msg))
     for f in u["failures"]:
         print("FAIL  %-60s %s  [%s]" % (obligation_name(u, f), f["message"], ",".join(f.get("props", []))))
         print(f["rendered"])
